@@ -78,17 +78,22 @@ _FUNCTION_PROPERTY = {
 # functions a property reads although they are listed with another one (a function can matter to several properties)
 EXTRA_FUNCTIONS = {
     "C02": ["SideState.__setattr__", "SyncManager.make_temp_file", "SyncManager.download_changed", "SyncManager.upload_synced"],
-    "C04": ["SyncState._change_oid", "SyncEntry.is_deletion", "SyncEntry.is_creation", "SyncState.update"],
-    "C06": ["EventManager._save_current_cursor", "EventManager._do_first_init", "EventManager._do_walk_if_needed", "EventManager._forget_walk_marker",
+    "C03": ["SyncState.change"],
+    "C04": ["SyncState._change_oid", "SyncEntry.is_deletion", "SyncEntry.is_creation", "SyncState.update", "SyncManager._get_parent_conflict", "SyncManager._get_child_conflict"],
+    "C05": ["SyncManager.make_temp_file", "SyncManager.download_changed"],
+    "C16": ["Provider.is_subpath", "Provider.replace_path"],
+    "C17": ["SyncManager.handle_hash_diff", "SmartSyncState.__init__"],
+    "C06": ["SyncEntry.is_trash", "EventManager._validate_root", "EventManager._save_current_cursor", "EventManager._do_first_init", "EventManager._do_walk_if_needed", "EventManager._forget_walk_marker",
             "EventManager._process_event"],
     "C07": ["SyncManager.path_conflict", "EventManager._do_first_init", "EventManager._save_current_cursor", "SyncManager._sync_one_entry", "SyncState._storage_update",
             "SyncState.storage_commit", "SyncManager.finished"],
-    "C10": ["CloudSync.__init__", "CloudSync.authenticate"],
-    "C11": ["CloudSync.forget", "SyncEntry.__setitem__", "SyncState.forget", "SyncState.updated"],
+    "C10": ["CloudSync.__init__", "CloudSync.authenticate", "Runnable.__increment_backoff", "Runnable.backoff", "Runnable.run", "SyncManager.handle_file_name_error"],
+    "C11": ["CloudSync.forget", "SyncEntry.__setitem__", "SyncState.forget", "SyncState.updated", "SyncState.update"],
     "C12": ["EventManager._process_event", "SyncManager.embrace_change"],
     "C13": ["CloudSync.translate", "Provider.is_subpath_of_root"],
-    "C14": ["SyncManager.do", "Provider._walk", "Provider.walk", "Provider.walk_oid", "EventManager._do_walk_if_needed"],
-    "C15": ["CloudSync.forget", "SyncManager.do"],
+    "C14": ["SyncManager._handle_dir_delete_not_empty", "EventManager.queue", "SyncManager.do", "Provider._walk", "Provider.walk", "Provider.walk_oid", "EventManager._do_walk_if_needed"],
+    "C15": ["CloudSync.forget", "SyncManager.do", "EventManager._do_unsafe", "SyncState.changes"],
+    "C20": ["SmartSyncState._changeset"],
 }
 
 
@@ -112,7 +117,7 @@ def _fill_from_inventory():
 _fill_from_inventory()
 DECISION_FUNCTIONS = [f for p in sorted(PROPERTY_FUNCTIONS) for f in PROPERTY_FUNCTIONS[p]]
 # shapes that are bookkeeping of one way of writing a search (a flag set in a loop, a filtering comprehension): decided only while the number of such sites is unchanged
-TOLERANT = ("set ", "filter ")
+TOLERANT = ("set ", "filter ", "break")
 
 
 def _generalise(txt: str) -> str:
@@ -520,8 +525,9 @@ def _return_sites(w, v, at, pre):
     if isinstance(vv, (ast.BoolOp, ast.Compare)) or (isinstance(vv, ast.UnaryOp) and isinstance(vv.op, ast.Not)):
         c = w.formula(vv, at)
         return [("<true>", f_and(pre, c)), ("<false>", f_and(pre, f_not(c)))]
-    if not any(isinstance(x, ast.Call) for x in ast.walk(v)):
-        _note_value(w, "return <expr>", _val_text(w, v, at))        # (a returned call / constructor is an action with its own row; a shared builder may be extracted)
+    if not any(isinstance(x, ast.Call) and (_impure_site(x, w.nm) or (isinstance(x.func, ast.Name) and x.func.id[:1].isupper())
+                                            or (isinstance(x.func, ast.Attribute) and x.func.attr[:1].isupper())) for x in ast.walk(v)):
+        _note_value(w, "return <expr>", _val_text(w, v, at))        # (a returned action / constructor has its own row; a shared builder may be extracted)
     return [("<expr>", pre)]        # which local carries the value is spelling: `x = f(); return x` is `return f()`
 
 
@@ -570,6 +576,8 @@ def _sites_of(w, node, at):
         out += [("return " + sh, pre) for (sh, pre) in _return_sites(w, st.value, at, TRUE)]
     elif isinstance(st, ast.Expr) and isinstance(st.value, (ast.Yield, ast.YieldFrom)):
         out += [("yield " + sh, pre) for (sh, pre) in (_return_sites(w, st.value.value, at, TRUE) or [("None", TRUE)])]
+    elif isinstance(st, ast.Break):
+        out.append(("break", TRUE))         # tolerant: decided only while both sides have it (a search loop may be rewritten with any())
     elif isinstance(st, ast.Raise):
         out.append(("raise " + (ast.unparse(st.exc.func) if isinstance(st.exc, ast.Call) else ("$a" if isinstance(st.exc, ast.Name) and not st.exc.id[:1].isupper() else
                                                                                                 (ast.unparse(st.exc) if st.exc is not None else ""))), TRUE))
@@ -682,7 +690,29 @@ def function_shapes(ctx: Ctx, spec: str):
     _ORDER[spec] = None
     from rules.reachcond import order_pairs
     _ORDER[spec] = order_pairs(w)
-    _VALUES[spec] = {k: sorted(v) for k, v in getattr(w, "values", {}).items()}
+    vals = dict(getattr(w, "values", {}))
+    a_ = f.node.args
+    pos_ = list(a_.posonlyargs) + list(a_.args)
+    dflt = ["#%d=%s" % (len(pos_) - len(a_.defaults) + i, ast.unparse(d)) for i, d in enumerate(a_.defaults)] + \
+           ["kw%d=%s" % (i, ast.unparse(d)) for i, (k, d) in enumerate(zip(a_.kwonlyargs, a_.kw_defaults)) if d is not None]
+    if dflt:
+        vals["<defaults>"] = dflt
+    its = []
+    for lp in [x for x in ctx.own_nodes(f) if isinstance(x, (ast.For, ast.AsyncFor))]:
+        # only loops over shared state (`self.<...>`): whether they walk the live collection or a snapshot of it (`tuple(self._queue)`) is the point
+        it, wrap = lp.iter, ""
+        if isinstance(it, ast.Call) and isinstance(it.func, ast.Name) and it.func.id in ("tuple", "list", "set", "sorted", "reversed", "frozenset") and len(it.args) == 1:
+            it, wrap = it.args[0], it.func.id
+        if isinstance(it, ast.Call) and isinstance(it.func, ast.Attribute) and it.func.attr == "copy" and not it.args:
+            it, wrap = it.func.value, "copy"
+        base = it
+        while isinstance(base, ast.Attribute):
+            base = base.value
+        if isinstance(it, ast.Attribute) and isinstance(base, ast.Name) and base.id == "self":
+            its.append("%s(%s)" % (wrap or "live", ast.unparse(it)))
+    if its:
+        vals["<iterates>"] = its
+    _VALUES[spec] = {k: sorted(v) for k, v in vals.items()}
     return f, shape_functions(w)
 
 
@@ -945,7 +975,7 @@ def decision_table(ctx: Ctx, rep: Report, rid: str, functions=None, shapes: str 
                     n += 1
                 rep.ok(rid, key, ctx.line(f, sts[0]), "taken exactly when %s over %s" % (dtext, gen or "no guard"), nontrivial=bool(gen), func=f.qname)
                 continue
-            if tolerant and len(gen) != len(old["atoms"]):
+            if tolerant and len(gen) != len(old["atoms"]) and shape != "break":
                 continue
             if gen == old["atoms"]:
                 asg, val = difference(d, parse_diagram(old["when"]), len(gen))
